@@ -191,6 +191,40 @@ def run (ctx):
       if call_name(c) == 'ofp_error':
         _family(ctx, repo, swmod, eh, c, kwarg(c, 'type'), kwarg(c, 'code'), spec)
 
+  # error replies generated by the byte connection are built from the offending
+  # message: _error_handler peeks the receive buffer for xid/data, so it must run
+  # before that message is consumed
+  rd = ofc.find_method('read')
+  if eh is not None and rd is not None:
+    ctx.analysed(rd)
+    peeks = [c for c in calls_in(eh.node) if call_name(c) == 'peek']
+    g = q.cfg_of(rd)
+    ehs = g.nodes_with_call(lambda c: call_name(c) == '_error_handler')
+    cons = g.nodes_with_call(lambda c: call_name(c) == 'consume_receive_buf')
+    heads = [h for (st, h, a) in g.loop_nodes]
+    ctx.floor('byte-connection error sites', len(ehs), 3)
+    # constant-argument specialisation: which `reason` values lead to a peek
+    eg = q.cfg_of(eh)
+    peek_reasons = set(); unknown_peek = False
+    for pn in eg.nodes_with_call(lambda c: call_name(c) == 'peek'):
+      rs = [norm(r).split('.')[-1] for l, o, r, b in q.guard_facts(eg, pn) if r is not None and o == '==' and norm(l) == eh.params[1]]
+      if rs: peek_reasons.update(rs)
+      else: unknown_peek = True
+    if peeks:
+      for e in ehs:
+        c0 = [c for c in q.node_calls(e) if call_name(c) == '_error_handler'][0]
+        reason = norm(c0.args[0]).split('.')[-1] if c0.args else None
+        if not unknown_peek and reason not in peek_reasons:
+          ctx.ok('R-ORDER', rd, "error for `%s` is built while the offending message is still in the buffer" % norm(e.ast)[:60],
+                 "_error_handler does not read the buffer for reason %s" % reason, (rd.module, e.ast), 'D3')
+          continue
+        stale = [c for c in cons if e in g.reachable(c, avoid=heads)]
+        ctx.ob('R-ORDER', rd, "error for `%s` is built while the offending message is still in the buffer" % norm(e.ast)[:60], not stale,
+               "no consume precedes the error handler in the same iteration" if not stale else
+               "consume_receive_buf (line %s) runs before _error_handler, which takes the error's xid and data from "
+               "io_worker.peek(): the error carries the *next* message's xid/bytes (or none)" % stale[0].line,
+               (rd.module, e.ast), 'D3')
+
   # ---- D4 synchronous ------------------------------------------------------
   for f in scan + [sw.find_method('rx_message'), se, sw.find_method('send')]:
     if f is None: continue
